@@ -1,4 +1,4 @@
-// C14 correspondence: every registry error (and wrapped / deadline / canceled / arbitrary / same-message errors)
+// C14 correspondence: every registry error (bare and inside text-preserving wrappers; and text-changing wrapped / deadline / canceled / arbitrary / same-message errors)
 // is returned by a stub local node behind the REAL chord.Server handlers, served by the real twirp servers over
 // the test transport, called through the REAL RemoteNode (twirp protobuf client + chord.ErrorMapper), for every
 // RPC method; the caller's view (which registry variable it is, ErrorIsRetryable) is printed.
@@ -11,6 +11,7 @@ import (
 	"net"
 	"net/http"
 	"sort"
+	"strings"
 	"time"
 
 	"github.com/go-chi/chi/v5"
@@ -91,6 +92,32 @@ func (s *stub) ListKeys(context.Context, []byte) ([]*protocol.KeyComposite, erro
 }
 
 var _ chord.VNode = (*stub)(nil)
+
+// text-preserving wrappers: Error() is the inner error's, errors.Is reaches the inner error
+type sameTextErr struct{ inner error }
+
+func (s sameTextErr) Error() string { return s.inner.Error() }
+func (s sameTextErr) Unwrap() error { return s.inner }
+
+// wrapSame nests `err` as the shape says, innermost first: f = fmt.Errorf("%w"), j = errors.Join, t = wrapper type
+func wrapSame(shape string, err error) (error, bool) {
+	if shape == "" {
+		return nil, false
+	}
+	for i := len(shape) - 1; i >= 0; i-- {
+		switch shape[i] {
+		case 'f':
+			err = fmt.Errorf("%w", err)
+		case 'j':
+			err = errors.Join(err)
+		case 't':
+			err = sameTextErr{err}
+		default:
+			return nil, false
+		}
+	}
+	return err, true
+}
 
 type method struct {
 	name string // name of the chord.Server handler
@@ -258,13 +285,17 @@ func (g *rig) run(r *hlib.Run, m method, kind, arg string, origin error) {
 	}
 	r.Emit(lhs, res)
 	r.Case(lhs + "|" + res)
-	r.Count("kind:" + kind)
+	if strings.HasPrefix(kind, "same:") {
+		r.Count(fmt.Sprintf("kind:same-text-wrapper-depth-%d", len(kind)-len("same:")))
+	} else {
+		r.Count("kind:" + kind)
+	}
 	r.Count("method:" + m.name)
 }
 
 func main() {
 	r := hlib.Start()
-	r.Rule = "exhaustive: every registry error x every RemoteNode RPC method through the real chord.Server + twirp server/client + ErrorMapper; plus per method: %w-wrapped registry errors, context.DeadlineExceeded (bare and wrapped), context.Canceled, fresh errors with a registry message, random arbitrary errors; non-trivial = distinct (method, origin, caller view)"
+	r.Rule = "exhaustive: every registry error x every RemoteNode RPC method through the real chord.Server + twirp server/client + ErrorMapper; plus per method: every registry error and the deadline error inside text-preserving wrappers (fmt.Errorf %w / errors.Join / wrapper type, nested 1..3 deep), %w-wrapped registry errors with a changed text, context.DeadlineExceeded (bare and wrapped), context.Canceled, fresh errors with a registry message, random arbitrary errors; non-trivial = distinct (method, origin, caller view)"
 	rng := hlib.NewRng(r.Seed)
 	g := setup()
 	names := make([]string, 0)
@@ -280,6 +311,14 @@ func main() {
 		byName[e.name] = e.err
 	}
 	one := func(m method, kind, arg string) {
+		if strings.HasPrefix(kind, "same:") {
+			if base, ok := byName[arg]; ok {
+				if origin, ok := wrapSame(strings.TrimPrefix(kind, "same:"), base); ok {
+					g.run(r, m, kind, arg, origin)
+				}
+			}
+			return
+		}
 		switch kind {
 		case "reg":
 			g.run(r, m, kind, arg, byName[arg])
@@ -329,6 +368,13 @@ func main() {
 			return hlib.Hex(b)
 		}
 	}
+	randShape := func() string {
+		b := make([]byte, 1+rng.Intn(3))
+		for i := range b {
+			b[i] = "fjt"[rng.Intn(3)]
+		}
+		return string(b)
+	}
 	rounds := 1
 	if r.Thorough() {
 		rounds = 8
@@ -336,8 +382,13 @@ func main() {
 	for round := 0; round < rounds; round++ {
 		for _, m := range methods {
 			for _, e := range registry {
+				// the same error inside text-preserving wrappers (the deadline error included)
+				if round == 0 {
+					one(m, "same:f", e.name)
+				}
+				one(m, "same:"+randShape(), e.name)
 				if e.name == "context.DeadlineExceeded" {
-					continue // exercised as kind `deadline`
+					continue // bare: exercised as kind `deadline`
 				}
 				one(m, "reg", e.name)
 				if round == 0 || rng.Chance(20) {
